@@ -50,6 +50,8 @@ PSY_INTERNAL:
 private:
     SemanticModel* semaModel_;
     const SpecifierSyntax* tySpecNode_;
+    const SyntaxNode* decltorNode_;
+    SyntaxToken tokenToDiagnoseAt() const;
     std::stack<const Symbol*> syms_;
     mutable std::unordered_set<const Type*> discardedTys_;
     std::unordered_set<const Identifier*> internalTydefNameIdents_;
